@@ -57,10 +57,20 @@ func (p *Paragraph) Set(key, value string) {
 
 func (p *Paragraph) WriteTo(out io.Writer) error {
 	for _, key := range p.Order {
-		value := p.Values[key]
-
-		value = strings.Replace(value, "\n", "\n ", -1)
-		value = strings.Replace(value, "\n \n", "\n .\n", -1)
+		/* Fold the value: every line after the first becomes a continuation
+		 * line, and empty lines are written as " ." so that no empty (or
+		 * whitespace only) line ends the Paragraph early. A single trailing
+		 * newline (which the ParagraphReader leaves on every folded value)
+		 * is not a line of its own. */
+		lines := strings.Split(strings.TrimSuffix(p.Values[key], "\n"), "\n")
+		for i := 1; i < len(lines); i++ {
+			if strings.TrimSpace(lines[i]) == "" {
+				lines[i] = " ."
+			} else {
+				lines[i] = " " + lines[i]
+			}
+		}
+		value := strings.Join(lines, "\n")
 
 		if _, err := out.Write(
 			[]byte(fmt.Sprintf("%s: %s\n", key, value)),
